@@ -11,11 +11,17 @@ import (
 
 var stringToNumberParseInteger = regexp.MustCompile(`^(?:0[xX])`)
 
+// StrNumericLiteral (9.3.1): a signed decimal literal or an unsigned hexadecimal integer.
+var stringToNumberValid = regexp.MustCompile(`^(?:[\+\-]?(?:Infinity|(?:[0-9]+\.?[0-9]*|\.[0-9]+)(?:[eE][\+\-]?[0-9]+)?)|0[xX][0-9a-fA-F]+)$`)
+
 func parseNumber(value string) float64 {
 	value = strings.Trim(value, builtinStringTrimWhitespace)
 
 	if value == "" {
 		return 0
+	}
+	if !stringToNumberValid.MatchString(value) {
+		return math.NaN() // strconv accepts more: 1_000, 0x1.8p1, inf, ...
 	}
 
 	var parseFloat bool
